@@ -1,10 +1,10 @@
 SPECIFICATION Spec
 CONSTANTS
-  Cons <- BindDeep
+  Cons <- ForInPat
   Terms = {"semi"}
-  MaxE = 0
-  MaxS = 1
-  MaxX = 3
+  MaxE = 1
+  MaxS = 3
+  MaxX = 4
   MaxP = 0
   MaxL = 0
   MaxTop = 1
